@@ -570,8 +570,12 @@ pub fn run(ctx: &mut Ctx) {
     k_adaptive(ctx);
     k_gl(ctx);
     s_gl_ascending(ctx, cap);
+    s_param_scans(ctx, cap);
     s_methods_1d(ctx, cap);
     s_methods_2d(ctx, cap);
+    s_switch_sweep(ctx, cap);
+    s_extreme_intervals(ctx, cap);
+    s_param_scans(ctx, cap);
     s_gl_ascending(ctx, cap);
     s_history(ctx, cap);
   }
@@ -1245,7 +1249,8 @@ fn s_gl_ascending(ctx: &mut Ctx, cap: Duration) {
 /// ≥ 128 sub-intervals and `simpson2d`)
 fn s_history(ctx: &mut Ctx, cap: Duration) {
   let hist: Vec<(Integrator, Call, C)> = HISTORY.lock().unwrap().clone();
-  for (m, call, v0) in hist {
+  // re-evaluated in REVERSED order, after every other method/parameter has been used on the same thread
+  for (m, call, v0) in hist.into_iter().rev() {
     let (r, sc, inp, parallel) = match &call {
       Call::D1(f, a, b) => {
         let par = matches!(m, Integrator::Simpson { divs } if divs >= 128);
@@ -1278,4 +1283,246 @@ fn s_history(ctx: &mut Ctx, cap: Duration) {
   }
   // the re-evaluation must not feed the history again
   HISTORY.lock().unwrap().clear();
+}
+
+// ------------------------------------------------------------------ hardening: routes, scans, sweeps, extremes
+
+/// the same method through the free functions `simpson` / `simpson_adaptive` (1-D) on the worker thread
+fn call1_free(cap: Duration, m: Integrator, f: &I1, a: f64, b: f64) -> (Res, f64, usize) {
+  let cnt = Arc::new(AtomicUsize::new(0));
+  let c2 = cnt.clone();
+  let f = f.clone();
+  let (r, t) = timed(cap, move || {
+    let g = |x: f64| {
+      c2.fetch_add(1, Ordering::Relaxed);
+      f.eval(x)
+    };
+    match m {
+      Integrator::Simpson { divs } => simpson(g, a, b, divs),
+      Integrator::AdaptiveSimpson { tolerance, max_depth } => simpson_adaptive(&g, a, b, tolerance, max_depth),
+      other => other.integrate(g, a, b),
+    }
+  });
+  (r, t, cnt.load(Ordering::Relaxed))
+}
+
+fn call2_free(cap: Duration, m: Integrator, f: &I2, ax: f64, bx: f64, ay: f64, by: f64) -> (Res, f64, usize) {
+  match m {
+    Integrator::Simpson { divs } => {
+      let f = f.clone();
+      let (r, t) = timed(cap, move || simpson2d(|x, y| f.eval(x, y), ax, bx, ay, by, divs));
+      (r, t, 0)
+    }
+    other => call2(cap, other, f, ax, bx, ay, by),
+  }
+}
+
+/// the statement's accuracy clauses on one 1-D call (exact in the degree class, tolerance / textbook bound above
+/// it, bounded time) and its reversal; `free` = through the free function instead of `Integrator::integrate`
+fn acc1(ctx: &mut Ctx, cap: Duration, m: Integrator, f: &I1, a: f64, b: f64, free: bool, tag: &str) {
+  let f = if tolerance_driven(&m) { f.normalised(a, b) } else { f.clone() };
+  let sc = f.scale(a, b);
+  let exact = f.exact(a, b);
+  let route = if free { "free-fn" } else { "integrator" };
+  let (r, t, evals) = if free { call1_free(cap, m, &f, a, b) } else { call1(cap, m, &f, a, b) };
+  let inp = format!("{} route={} ctx={} a={:e} b={:e} kl={:.3} f={}", method_name(&m), route, tag, a, b, f.kl(a, b), f.describe());
+  ctx.count(&format!("{}/{}/{}", tag, short(&m), r.tag()));
+  if matches!(r, Res::Timeout) {
+    ctx.s("C12.time", false, &format!("{}/timeout", short(&m)), &format!("{} cap_s={} elapsed_s={:.2}", inp, cap.as_secs(), t));
+    return;
+  }
+  let allow = allowance1(&m, &f, a, b, evals);
+  let (pred, what) = if allow == 0. { ("C12.exact", "inexact") } else { ("C12.accuracy", "inaccurate") };
+  let ok = match r {
+    Res::Val(v) => (v - exact).norm() <= 1e-12 * sc + allow,
+    _ => false,
+  };
+  ctx.s(pred, ok, &fail_sig(&m, what, &r), &format!("{} evals={} relerr={:e} allow={:e}", inp, evals, r.val().map(|v| (v - exact).norm() / sc).unwrap_or(f64::NAN), allow / sc));
+  if let Res::Val(v) = r {
+    let (rr, _, _) = if free { call1_free(cap, m, &f, b, a) } else { call1(cap, m, &f, b, a) };
+    if !matches!(rr, Res::Timeout) {
+      let okr = match rr {
+        Res::Val(w) => (w + v).norm() <= 1e-12 * sc + 2. * allow,
+        _ => false,
+      };
+      ctx.s("C12.reverse", okr, &fail_sig(&m, "reverse", &rr), &format!("{} forward=({:e},{:e}) reversed={}", inp, v.re, v.im, rr.val().map(|w| format!("({:e},{:e})", w.re, w.im)).unwrap_or(rr.tag().into())));
+    }
+  }
+}
+
+/// 2-D exactness on an integrand inside the degree class of the method (bi-polynomial or separable)
+fn exact2(ctx: &mut Ctx, cap: Duration, m: Integrator, f: &I2, ax: f64, bx: f64, ay: f64, by: f64, free: bool, tag: &str) {
+  let sc = f.scale(ax, bx, ay, by);
+  let (r, t, _) = if free { call2_free(cap, m, f, ax, bx, ay, by) } else { call2(cap, m, f, ax, bx, ay, by) };
+  let inp = format!(
+    "{} route={} ctx={} ax={:e} bx={:e} ay={:e} by={:e} f={}",
+    method_name(&m), if free { "free-fn" } else { "integrator" }, tag, ax, bx, ay, by, f.describe()
+  );
+  ctx.count(&format!("{}/{}2d/{}", tag, short(&m), r.tag()));
+  if matches!(r, Res::Timeout) {
+    ctx.s("C12.time", false, &format!("{}2d/timeout", short(&m)), &format!("{} cap_s={} elapsed_s={:.2}", inp, cap.as_secs(), t));
+    return;
+  }
+  let ex = f.exact(ax, bx, ay, by);
+  let tol_allow = match m {
+    Integrator::ClenshawCurtis { tolerance } | Integrator::GaussKonrod { tolerance, .. } => tolerance * ((bx - ax).abs() + 1.) * sc.max(1.),
+    _ => 0.,
+  };
+  let ok = match r {
+    Res::Val(v) => (v - ex).norm() <= 1e-12 * sc + tol_allow,
+    _ => false,
+  };
+  let sig = match r {
+    Res::Panic => format!("{}2d/inexact/panic", short(&m)),
+    _ => format!("{}2d/{}", short(&m), if tol_allow == 0. { "inexact" } else { "inaccurate" }),
+  };
+  ctx.s(if tol_allow == 0. { "C12.exact" } else { "C12.accuracy" }, ok, &sig, &format!("{} relerr={:e}", inp, r.val().map(|v| (v - ex).norm() / sc).unwrap_or(f64::NAN)));
+}
+
+fn gen_cubic(r: &mut Rng) -> I1 {
+  // complex cubic, every coefficient non-zero (so the integrand does not vanish at the end points)
+  I1::Poly((0..4).map(|_| C::new(r.range(0.3, 1.5) * if r.coin() { 1. } else { -1. }, r.range(0.3, 1.5) * if r.coin() { 1. } else { -1. })).collect())
+}
+
+fn gen_bicubic(r: &mut Rng) -> I2 {
+  I2::Poly2((0..4).map(|_| (0..4).map(|_| C::new(r.range(-1., 1.), r.range(-1., 1.)) + C::new(0.2, -0.2)).collect()).collect())
+}
+
+/// Simpson around the switch to the parallel sum (`divs' ≥ 128`): every division count 118…142, both parities,
+/// 1-D (cubic: exact; `exp`: textbook bound) and 2-D (bi-cubic on a rectangle with different x and y ranges),
+/// through `Integrator` and through the free functions
+fn s_switch_sweep(ctx: &mut Ctx, cap: Duration) {
+  for divs in 118..=142usize {
+    let m = Integrator::Simpson { divs };
+    let (a, b) = (ctx.rng.range(-2., -0.1), ctx.rng.range(0.3, 3.));
+    let f = gen_cubic(&mut ctx.rng);
+    let e = I1::Exp { k: ctx.rng.range(1., 4.), amp: C::new(0.7, -0.9) };
+    for free in [false, true] {
+      acc1(ctx, cap, m, &f, a, b, free, "switch");
+      acc1(ctx, cap, m, &e, a, b, free, "switch");
+    }
+    if ctx.thorough || divs % 3 != 0 {
+      let p = gen_bicubic(&mut ctx.rng);
+      let (ay, by) = (ctx.rng.range(0.5, 1.), ctx.rng.range(2.5, 6.));
+      for free in [false, true] {
+        exact2(ctx, cap, m, &p, a, b, ay, by, free, "switch");
+      }
+    }
+  }
+}
+
+/// one parameter changes between consecutive calls on the same thread, everything else (integrand, interval)
+/// stays bit-identical; then the five methods interleaved at identical arguments
+fn s_param_scans(ctx: &mut Ctx, cap: Duration) {
+  let (a, b) = (ctx.rng.range(-1.5, -0.2), ctx.rng.range(0.4, 2.));
+  let (ay, by) = (ctx.rng.range(2., 3.), ctx.rng.range(3.5, 7.));
+  let cubic = gen_cubic(&mut ctx.rng);
+  let osc = I1::Exp { k: ctx.rng.range(2., 5.), amp: C::new(-0.8, 0.6) };
+  let bic = gen_bicubic(&mut ctx.rng);
+  let mut seq: Vec<Integrator> = vec![];
+  for &divs in &[50usize, 51, 130, 50, 400, 6, 129, 128, 5, 131] {
+    seq.push(Integrator::Simpson { divs });
+  }
+  for &degree in &[2usize, 9, 3, 64, 2, 33, 4] {
+    seq.push(Integrator::GaussLegendre { degree });
+  }
+  for &tolerance in &[1e-3, 1e-9, 1e-3, 1e-12, 1e-6] {
+    seq.push(Integrator::AdaptiveSimpson { tolerance, max_depth: 24 });
+  }
+  for &max_depth in &[30usize, 12, 24] {
+    seq.push(Integrator::AdaptiveSimpson { tolerance: 1e-6, max_depth });
+  }
+  for &tolerance in &[1e-3, 1e-10, 1e-3, 1e-6] {
+    seq.push(Integrator::ClenshawCurtis { tolerance });
+  }
+  for &tolerance in &[1e-3, 1e-8, 1e-3] {
+    seq.push(Integrator::GaussKonrod { tolerance, max_depth: 1000 });
+  }
+  // interleaved at identical arguments
+  for _ in 0..2 {
+    seq.push(Integrator::Simpson { divs: 60 });
+    seq.push(Integrator::GaussLegendre { degree: 12 });
+    seq.push(Integrator::AdaptiveSimpson { tolerance: 1e-8, max_depth: 24 });
+    seq.push(Integrator::ClenshawCurtis { tolerance: 1e-8 });
+    seq.push(Integrator::GaussLegendre { degree: 5 });
+    seq.push(Integrator::Simpson { divs: 200 });
+  }
+  for (i, m) in seq.iter().enumerate() {
+    let gk = matches!(m, Integrator::GaussKonrod { .. });
+    acc1(ctx, cap, *m, &osc, a, b, false, "scan");
+    acc1(ctx, cap, *m, &cubic, a, b, i % 2 == 1 && !gk, "scan");
+    if !gk {
+      let f2 = match m {
+        // inside every degree class: bi-cubic
+        Integrator::GaussLegendre { .. } | Integrator::Simpson { .. } | Integrator::AdaptiveSimpson { .. } | Integrator::ClenshawCurtis { .. } => &bic,
+        _ => &bic,
+      };
+      // Clenshaw–Curtis is tolerance-driven: scale the integrand to 1 so that the tolerance reads the same either way
+      if let Integrator::ClenshawCurtis { .. } = m {
+        let s = 1. / bic.scale(a, b, ay, by);
+        let scaled = match &bic {
+          I2::Poly2(rows) => I2::Poly2(rows.iter().map(|r| r.iter().map(|c| c * s).collect()).collect()),
+          other => other.clone(),
+        };
+        exact2(ctx, cap, *m, &scaled, a, b, ay, by, false, "scan");
+      } else {
+        exact2(ctx, cap, *m, f2, a, b, ay, by, i % 2 == 0, "scan");
+      }
+    }
+  }
+}
+
+/// tiny and huge intervals (lengths 1e-9 … 1e6) with integrands that vary on the scale of the interval:
+/// cubic in `x/L` and `exp(i κ x/L)`
+fn s_extreme_intervals(ctx: &mut Ctx, cap: Duration) {
+  let n = if ctx.thorough { 400 } else { 50 };
+  for i in 0..n {
+    let len = match i % 5 {
+      0 => ctx.rng.log_range(1e-9, 1e-5),
+      1 => ctx.rng.log_range(1e3, 1e6),
+      _ => ctx.rng.log_range(1e-9, 1e6),
+    };
+    let a = ctx.rng.range(-2., 1.) * len;
+    let b = a + len;
+    let m = match i % 6 {
+      0 => Integrator::Simpson { divs: ctx.rng.between(5, 400) },
+      1 => Integrator::GaussLegendre { degree: ctx.rng.between(2, 64) },
+      2 => Integrator::AdaptiveSimpson { tolerance: gen_tol(&mut ctx.rng), max_depth: 24 },
+      3 => Integrator::ClenshawCurtis { tolerance: gen_tol(&mut ctx.rng) },
+      4 => Integrator::Simpson { divs: ctx.rng.between(126, 134) },
+      _ => {
+        if i % 12 == 5 {
+          Integrator::GaussKonrod { tolerance: gen_tol(&mut ctx.rng), max_depth: 1000 }
+        } else {
+          Integrator::GaussLegendre { degree: ctx.rng.between(2, 8) }
+        }
+      }
+    };
+    let cubic = match gen_cubic(&mut ctx.rng) {
+      I1::Poly(cs) => I1::Poly(cs.iter().enumerate().map(|(j, c)| c / len.powi(j as i32)).collect()),
+      other => other,
+    };
+    let osc = I1::Exp { k: ctx.rng.range(-3., 3.) / len, amp: C::new(0.6, 0.8) };
+    acc1(ctx, cap, m, &cubic, a, b, i % 4 == 3, "extreme");
+    acc1(ctx, cap, m, &osc, a, b, false, "extreme");
+    if (i / 6) % 2 == 0 && !matches!(m, Integrator::GaussKonrod { .. }) {
+      // rectangle: tiny in x, huge in y (or the other way round)
+      let ly = 1. / len;
+      let (ay, by) = (0.25 * ly, 1.25 * ly);
+      let rows: Vec<Vec<C>> = (0..4)
+        .map(|jy| (0..4).map(|jx| C::new(ctx.rng.range(-1., 1.), ctx.rng.range(-1., 1.)) / (len.powi(jx) * ly.powi(jy))).collect())
+        .collect();
+      let p = I2::Poly2(rows);
+      let p = if tolerance_driven(&m) {
+        let s = 1. / p.scale(a, b, ay, by);
+        match &p {
+          I2::Poly2(rows) => I2::Poly2(rows.iter().map(|r| r.iter().map(|c| c * s).collect()).collect()),
+          o => o.clone(),
+        }
+      } else {
+        p
+      };
+      exact2(ctx, cap, m, &p, a, b, ay, by, false, "extreme");
+    }
+  }
 }
